@@ -290,7 +290,7 @@ type Pred struct {
 	ChangesNothing bool
 }
 
-func fail(prop, why string) Pred   { return Pred{Class: MustFail, Prop: prop, Why: why} }
+func fail(prop, why string) Pred { return Pred{Class: MustFail, Prop: prop, Why: why} }
 func either(prop, why string, alts ...*Model) Pred {
 	return Pred{Class: Either, Prop: prop, Why: why, Alts: alts}
 }
